@@ -373,6 +373,18 @@ func r01_5(c *RC) {
 					}
 				}
 			}
+			// index form: input[sent : sent+k] with sent starting at 0
+			if sl, isSl := in.(*ssa.Slice); isSl {
+				if prm, isP := sl.X.(*ssa.Parameter); isP && prm.Name() == s.param {
+					if lo, isPhi := sl.Low.(*ssa.Phi); isPhi {
+						for _, e := range lo.Edges {
+							if isZero(e) {
+								ok = true
+							}
+						}
+					}
+				}
+			}
 		})
 		if ok {
 			c.OK("cursor-start@"+s.fn, fn.Pos(), "the cursor starts at the input slice %s", s.param)
